@@ -59,6 +59,33 @@ async def join2(a: Promise[Int], b: Promise[Int], tag: Int): Int
   x + y
 end
 
+async def mix(a: Promise[Int], b: Promise[Int], tag: Int): Int
+  x := 100 + (await a)
+  println "t${tag}a"
+  y := await b
+  println "t${tag}b"
+  x + y
+end
+
+async def sum2(a: Promise[Int], b: Promise[Int], tag: Int): Int
+  s := (await a) + (await b) * 2
+  println "t${tag}a"
+  println "t${tag}b"
+  s
+end
+
+def add3(a: Int, b: Int, c: Int): Int
+  a + b + c
+end
+
+async def args3(a: Promise[Int], b: Promise[Int], tag: Int): Int
+  y := await a
+  println "t${tag}a"
+  z := add3(7, y, await b)
+  println "t${tag}b"
+  z
+end
+
 async def chain(a: Promise[Int], tag: Int): Int
   v := await a
   println "t${tag}"
@@ -174,7 +201,9 @@ func genPromProgram(r *Rand, maxNodes int, allowSlow bool) promProgram {
 				a := vis[r.Intn(len(vis))]
 				c := vis[r.Intn(len(vis))]
 				av, cv := graph[a.id].val, graph[c.id].val
-				fmt.Fprintf(sb, "%s%s := join2(%s, %s, %d)\n", indent, name, a.name, c.name, tag)
+				// the two awaits sit at different operand-stack depths in mix / sum2 / args3
+				form := Pick(r, []string{"join2", "join2", "mix", "sum2", "args3"})
+				fmt.Fprintf(sb, "%s%s := %s(%s, %s, %d)\n", indent, name, form, a.name, c.name, tag)
 				awaits += 2
 				g.deps = []int{a.id}
 				switch {
@@ -182,12 +211,23 @@ func genPromProgram(r *Rand, maxNodes int, allowSlow bool) promProgram {
 					g.val = av
 				case cv.err:
 					g.deps = append(g.deps, c.id)
-					g.tokens = append(g.tokens, fmt.Sprintf("t%da", tag))
+					if form != "sum2" { // sum2 awaits both before it prints anything
+						g.tokens = append(g.tokens, fmt.Sprintf("t%da", tag))
+					}
 					g.val = cv
 				default:
 					g.deps = append(g.deps, c.id)
 					g.tokens = append(g.tokens, fmt.Sprintf("t%da", tag), fmt.Sprintf("t%db", tag))
-					g.val = pval{v: av.v + cv.v}
+					switch form {
+					case "mix":
+						g.val = pval{v: 100 + av.v + cv.v}
+					case "sum2":
+						g.val = pval{v: av.v + 2*cv.v}
+					case "args3":
+						g.val = pval{v: 7 + av.v + cv.v}
+					default:
+						g.val = pval{v: av.v + cv.v}
+					}
 				}
 			}
 			graph = append(graph, g)
